@@ -1,5 +1,6 @@
 from __future__ import annotations
 from abc import abstractmethod
+import re
 import typing
 from typing import Tuple
 
@@ -747,7 +748,11 @@ class VhdlScope:
 
             # remove leading and trailing underscores
             # since they are not allowed in vhdl
-            name = name.strip("_")
+            name = re.sub("_+", "_", name).strip("_")
+
+            # identifiers start with a letter
+            if name == "" or not name[0].isalpha():
+                name = (fallback or "n") + ("_" + name if name else "")
 
             # avoid name collisions by appending counter to names
             if name.lower() in used_names:
